@@ -215,11 +215,11 @@ func (e *Enc) appendOp(x *ssa.Call, st *State) {
 	q := e.freshName("q_i")
 	oldArr := tSelect(h, Term{app("Slice_arr", s.S), sInt})
 	srcArr := tSelect(h, Term{app("Slice_arr", t.S), sInt})
-	e.assume(Term{fmt.Sprintf("(forall ((%s Int)) (! (=> (and (<= 0 %s) (< %s %s)) (= (select %s %s) (select %s (+ (Slice_off %s) %s)))) :pattern ((select %s %s))))",
+	e.assume(Term{fmt.Sprintf("(forall ((%s Int)) (! (=> (and (<= 0 %s) (< %s %s)) (= (select %s %s) (select %s (sidx (Slice_off %s) %s)))) :pattern ((select %s %s))))",
 		q, q, q, sl.S, na.S, q, oldArr.S, s.S, q, na.S, q), sBool})
 	q2 := e.freshName("q_i")
-	e.assume(Term{fmt.Sprintf("(forall ((%s Int)) (! (=> (and (<= 0 %s) (< %s %s)) (= (select %s (+ %s %s)) (select %s (+ (Slice_off %s) %s)))) :pattern ((select %s (+ %s %s)))))",
-		q2, q2, q2, tl.S, na.S, sl.S, q2, srcArr.S, t.S, q2, na.S, sl.S, q2), sBool})
+	e.assume(Term{fmt.Sprintf("(forall ((%s Int)) (! (=> (and (<= 0 %s) (< %s %s)) (= (select %s (+ %s %s)) (select %s (sidx (Slice_off %s) %s)))) :pattern ((select %s (sidx (Slice_off %s) %s)))))",
+		q2, q2, q2, tl.S, na.S, sl.S, q2, srcArr.S, t.S, q2, srcArr.S, t.S, q2), sBool})
 	// the common one-element case, stated without a quantifier as well
 	e.assume(tImp(tEq(tl, tInt(1)), tEq(tSelect(na, sl), tSelect(srcArr, Term{app("Slice_off", t.S), sInt}))))
 	st.heap[name] = e.def(name, tStore(h, r, na))
@@ -253,7 +253,7 @@ func (e *Enc) copyOp(x *ssa.Call, st *State) {
 	srcA := tSelect(h, Term{app("Slice_arr", src.S), sInt})
 	q := e.freshName("q_i")
 	// copied range
-	e.assume(Term{fmt.Sprintf("(forall ((%s Int)) (! (=> (and (<= 0 %s) (< %s %s)) (= (select %s (+ (Slice_off %s) %s)) (select %s (+ (Slice_off %s) %s)))) :pattern ((select %s (+ (Slice_off %s) %s)))))",
+	e.assume(Term{fmt.Sprintf("(forall ((%s Int)) (! (=> (and (<= 0 %s) (< %s %s)) (= (select %s (sidx (Slice_off %s) %s)) (select %s (sidx (Slice_off %s) %s)))) :pattern ((select %s (sidx (Slice_off %s) %s)))))",
 		q, q, q, n.S, na.S, dst.S, q, srcA.S, src.S, q, na.S, dst.S, q), sBool})
 	q2 := e.freshName("q_i")
 	e.assume(Term{fmt.Sprintf("(forall ((%s Int)) (! (=> (or (< %s (Slice_off %s)) (>= %s (+ (Slice_off %s) %s))) (= (select %s %s) (select %s %s))) :pattern ((select %s %s))))",
